@@ -168,6 +168,10 @@ theorem rSels_eq (g : Gram) : ∀ ss : List (Sel Fac), rSels g ss = rCat (rSel g
   | [] => by simp [rSels, rCat]
   | s :: ss => by simp only [rSels, rCat, rSels_eq g ss]
 
+theorem rTRows_eq (g : Gram) : ∀ rs : List (List Exp), rTRows g rs = rCat (fun row => rRow g row ++ [.bar]) rs
+  | [] => by simp [rTRows, rCat]
+  | r :: rs => by simp only [rTRows, rCat, rTRows_eq g rs, List.append_assoc, List.cons_append, List.nil_append]
+
 theorem rArgs_eq (g : Gram) : ∀ ss : List (Arg Fac), rArgs g ss = rSep (rArg g) .comma ss
   | [] => by simp [rArgs, rSep]
   | [e] => by simp [rArgs, rSep]
@@ -375,6 +379,24 @@ theorem pName_sound : ∀ ts a r', pName ts = some (a, r') → ts = (fun z => [T
   · obtain ⟨h1, h2⟩ := Prod.mk.inj (Option.some.inj h); subst h1; subst h2; rfl
   · cases h
 
+theorem pField_sound : ∀ ts a r', pField ts = some (a, r') → ts = (fun f : Nat × Nat => [Tok.id f.1, Tok.kind f.2]) a ++ r' := by
+  intro ts a r' h
+  unfold pField at h
+  split at h
+  · obtain ⟨h1, h2⟩ := Prod.mk.inj (Option.some.inj h); subst h1; subst h2; rfl
+  · cases h
+
+theorem rowOf_sound (g : Gram) (p : List Tok → Option (Exp × List Tok)) (hp : ∀ ts e r, p ts = some (e, r) → ts = rEx g e ++ r) :
+    ∀ ts row r', rowOf p ts = some (row, r') → ts = (fun row => rRow g row ++ [Tok.bar]) row ++ r' := by
+  intro ts row r' h
+  unfold rowOf at h
+  split at h
+  · next cells r0 hs =>
+    obtain ⟨h1, h2⟩ := Prod.mk.inj (Option.some.inj h); subst h1; subst h2
+    have := (sepBy_sound p (rEx g) .sp hp _ _ _ _ hs).1
+    rw [this]; simp [rRow_eq]
+  · cases h
+
 theorem post_eq {f0 f : Fac} {r0 r : List Tok} (h : some (post f0 r0) = some (f, r)) : post f0 r0 = (f, r) :=
   Option.some.inj h
 
@@ -419,6 +441,18 @@ theorem pr_step (g : Gram) (n : Nat) (ih : PR g n) : PR g (n + 1) := by
         have := post_render g _ _ _ _ (post_eq h)
         rw [e1, ← rRows_eq]
         simpa [rFac] using this
+      · cases h
+    · -- table
+      split at h
+      · next hdr r1 hh =>
+        have e1 := (sepBy_sound pField (fun f : Nat × Nat => [Tok.id f.1, Tok.kind f.2]) .sp pField_sound _ _ _ _ hh).1
+        split at h
+        · cases h
+        · next rows r2 _ hm =>
+          have e2 := many_sound (rowOf (pEx g n)) (fun row => rRow g row ++ [Tok.bar]) (rowOf_sound g (pEx g n) ihE) _ _ _ _ hm
+          have := post_render g _ _ _ _ (post_eq h)
+          rw [e1, e2, ← rTRows_eq]
+          simpa [rFac] using this
       · cases h
     · -- the empty map
       have := post_render g _ _ _ _ (post_eq h)
@@ -724,10 +758,29 @@ def Fac.isBase : Fac → Bool
   | .tr _ => false
   | _ => true
 
+/-- operands that end with a table literal: what follows them must not start another row -/
+def Fac.open : Fac → Bool
+  | .tbl _ _ => true
+  | .neg f => f.open
+  | .not f => f.open
+  | _ => false
+
+/-- the last operand of a flat formula -/
+def lastOp : Fac → Rest Fac → Fac
+  | f, [] => f
+  | _, (_, f') :: ps => lastOp f' ps
+
+def Ex.lastOpen : Exp → Bool
+  | .form t => (lastOp t.first t.tail).open
+  | .range _ _ b => (lastOp b.first b.tail).open
+  | .range3 _ _ _ _ b => (lastOp b.first b.tail).open
+
 mutual
 /-- canonical factors: inside parentheses and list elements the documented grouping; rows of a
     matrix and subscript lists are not empty; a one-element tuple is not a single formula (that is a
-    parenthetical term); a transposed factor is not itself prefixed or transposed -/
+    parenthetical term); a transposed factor is not itself prefixed or transposed; a record has a binding, not
+    every key of a map is a bare name; a table has a field and a row, a row has a cell and no cell ends with a
+    table; an operand that ends with a table is not followed by the subtraction sign -/
 def okF (g : Gram) : Fac → Prop
   | .lit _ => True
   | .var _ => True
@@ -737,6 +790,7 @@ def okF (g : Gram) : Fac → Prop
   | .set es => okEs g es
   | .recd bs => bs ≠ [] ∧ okBinds g bs
   | .map ms => okMaps g ms ∧ (ms ≠ [] → allBind (ms.map entM) = none)
+  | .tbl hdr rows => hdr ≠ [] ∧ rows ≠ [] ∧ okTRows g rows
   | .slice _ sels => sels ≠ [] ∧ okSels g sels
   | .paren t => WellGrouped t ∧ OpsIn g.N t.tail ∧ okL g t
   | .neg f => okF g f
@@ -744,7 +798,7 @@ def okF (g : Gram) : Fac → Prop
   | .tr f => f.isBase = true ∧ okF g f
 def okL (g : Gram) : Trm → Prop
   | .leaf f => okF g f
-  | .node l _ r => okL g l ∧ okL g r
+  | .node l o r => okL g l ∧ okL g r ∧ ((lastOp l.first l.tail).open = true → o ≠ g.sub)
 def okE (g : Gram) : Exp → Prop
   | .form t => WellGrouped t ∧ OpsIn g.N t.tail ∧ okL g t
   | .range a _ b => (WellGrouped a ∧ OpsIn g.N a.tail ∧ okL g a) ∧ (WellGrouped b ∧ OpsIn g.N b.tail ∧ okL g b)
@@ -756,6 +810,9 @@ def okEs (g : Gram) : List Exp → Prop
 def okRows (g : Gram) : List (List Exp) → Prop
   | [] => True
   | r :: rs => (r ≠ [] ∧ okEs g r) ∧ okRows g rs
+def okTRows (g : Gram) : List (List Exp) → Prop
+  | [] => True
+  | r :: rs => (r ≠ [] ∧ okEs g r ∧ ∀ e ∈ r, e.lastOpen = false) ∧ okTRows g rs
 def okSub (g : Gram) : Sub Fac → Prop
   | .all => True
   | .ex e => okE g e
@@ -802,6 +859,7 @@ def costF : Fac → Nat
   | .set es => 2 + costEs es
   | .recd bs => 1 + costBinds bs
   | .map ms => 1 + costMaps ms
+  | .tbl _ rows => 1 + costRows rows
   | .slice _ sels => 1 + costSels sels
   | .paren t => 4 + costT t
   | .neg f => 1 + costF f
@@ -931,7 +989,7 @@ theorem listTill_complete {α : Type} (p : List Tok → Option (α × List Tok))
 /-! first tokens, lengths, membership forms of the list predicates -/
 
 def Tok.isStart : Tok → Bool
-  | .lit _ => true | .id _ => true | .lb => true | .lc => true | .lp => true | .dash => true | .bang => true
+  | .lit _ => true | .id _ => true | .lb => true | .lc => true | .lp => true | .dash => true | .bang => true | .bar => true
   | _ => false
 
 theorem rFac_head (g : Gram) : ∀ f : Fac, ∃ t r, rFac g f = t :: r ∧ t.isStart = true
@@ -943,6 +1001,7 @@ theorem rFac_head (g : Gram) : ∀ f : Fac, ∃ t r, rFac g f = t :: r ∧ t.isS
   | .set es => ⟨.lc, rExs g es ++ [.rc], by simp [rFac], rfl⟩
   | .recd bs => ⟨.lc, rBinds g bs ++ [.rc], by simp [rFac], rfl⟩
   | .map ms => ⟨.lc, (if ms.isEmpty then [.colon] else rMaps g ms) ++ [.rc], by simp [rFac], rfl⟩
+  | .tbl hdr rows => ⟨.bar, rSep (fun f => [.id f.1, .kind f.2]) .sp hdr ++ .bar :: rTRows g rows, by simp [rFac], rfl⟩
   | .slice x sels => ⟨.id x, rSels g sels, by simp [rFac], rfl⟩
   | .paren t => ⟨.lp, rTrm g t ++ [.rp], by simp [rFac], rfl⟩
   | .neg f => ⟨.dash, rFac g f, by simp [rFac], rfl⟩
@@ -1005,6 +1064,14 @@ theorem costRows_mem : ∀ rs : List (List Exp), ∀ r ∈ rs, costEs r ≤ cost
     rcases List.mem_cons.mp hx with hx | hx
     · subst hx; omega
     · have := costRows_mem rs x hx; omega
+
+theorem okTRows_mem (g : Gram) : ∀ rs : List (List Exp), okTRows g rs → ∀ r ∈ rs, r ≠ [] ∧ okEs g r ∧ ∀ e ∈ r, e.lastOpen = false
+  | [], _, _, h => by cases h
+  | r :: rs, h, x, hx => by
+    simp only [okTRows] at h
+    rcases List.mem_cons.mp hx with hx | hx
+    · subst hx; exact h.1
+    · exact okTRows_mem g rs h.2 x hx
 
 theorem okSubs_mem (g : Gram) : ∀ ss : List (Sub Fac), okSubs g ss → ∀ s ∈ ss, okSub g s
   | [], _, _, h => by cases h
@@ -1106,7 +1173,7 @@ theorem okL_parts (g : Gram) : ∀ t : Trm, okL g t → okF g t.first ∧ ∀ p 
   | .node l o r, h => by
     simp only [okL] at h
     have hl := okL_parts g l h.1
-    have hr := okL_parts g r h.2
+    have hr := okL_parts g r h.2.1
     refine ⟨hl.1, ?_⟩
     intro p hp
     simp only [Tree.tail, List.mem_append, List.mem_cons] at hp
@@ -1114,6 +1181,37 @@ theorem okL_parts (g : Gram) : ∀ t : Trm, okL g t → okF g t.first ∧ ∀ p 
     · exact hl.2 p hp
     · subst hp; exact hr.1
     · exact hr.2 p hp
+
+/-- in a flat formula no operand that ends with a table is followed by the subtraction sign -/
+def chainOk (g : Gram) : Fac → Rest Fac → Prop
+  | _, [] => True
+  | f, (o, f') :: ps => (f.open = true → o ≠ g.sub) ∧ chainOk g f' ps
+
+theorem lastOp_append : ∀ (ps : Rest Fac) (f : Fac) (o : Op) (f' : Fac) (qs : Rest Fac),
+    lastOp f (ps ++ (o, f') :: qs) = lastOp f' qs
+  | [], f, o, f', qs => by simp [lastOp]
+  | (o1, f1) :: ps, f, o, f', qs => by simp only [List.cons_append, lastOp]; exact lastOp_append ps f1 o f' qs
+
+theorem chainOk_append (g : Gram) : ∀ (ps : Rest Fac) (f : Fac) (o : Op) (f' : Fac) (qs : Rest Fac),
+    chainOk g f ps → ((lastOp f ps).open = true → o ≠ g.sub) → chainOk g f' qs → chainOk g f (ps ++ (o, f') :: qs)
+  | [], f, o, f', qs, _, h2, h3 => by simp only [List.nil_append, chainOk]; exact ⟨by simpa [lastOp] using h2, h3⟩
+  | (o1, f1) :: ps, f, o, f', qs, h1, h2, h3 => by
+    simp only [List.cons_append, chainOk] at h1 ⊢
+    exact ⟨h1.1, chainOk_append g ps f1 o f' qs h1.2 (by simpa [lastOp] using h2) h3⟩
+
+theorem okL_chain (g : Gram) : ∀ t : Trm, okL g t → chainOk g t.first t.tail
+  | .leaf f, _ => by simp [Tree.tail, chainOk]
+  | .node l o r, h => by
+    simp only [okL] at h
+    simp only [Tree.first, Tree.tail]
+    exact chainOk_append g l.tail l.first o r.first r.tail (okL_chain g l h.1) h.2.2 (okL_chain g r h.2.1)
+
+theorem lastOp_node (l : Trm) (o : Op) (r : Trm) :
+    lastOp (Tree.node l o r).first (Tree.node l o r).tail = lastOp r.first r.tail := by
+  simp only [Tree.first, Tree.tail, lastOp_append]
+
+/-- what may follow an operand that ends with a table: not a token that starts an operand -/
+def NoStart (rest : List Tok) : Prop := ∀ t r, rest = t :: r → t.isStart = false
 
 /-- the tokens that apply to the name before them: the bracket of a call, a subscript bracket or brace, the dot of a
     field access, the comma of a swizzle -/
@@ -1126,14 +1224,17 @@ def Tok.isApp : Tok → Bool
 def NoCont (g : Gram) (rest : List Tok) : Prop :=
   ∀ t r, rest = t :: r → g.binOp? t = none ∧ t ≠ .quote ∧ t.isApp = false
 
-/-- what may follow an expression: as for a formula, and not a range operator -/
-def NoContE (g : Gram) (rest : List Tok) : Prop :=
+/-- what may follow an expression that does not end with a table: as for a formula, and not a range operator -/
+def NoContW (g : Gram) (rest : List Tok) : Prop :=
   ∀ t r, rest = t :: r → g.binOp? t = none ∧ t ≠ .quote ∧ t.isApp = false ∧ ∀ i, t ≠ .dots i
+
+/-- what may follow any expression: moreover not a token that starts an operand -/
+def NoContE (g : Gram) (rest : List Tok) : Prop := NoContW g rest ∧ NoStart rest
 
 /-- what may follow an operand -/
 def NoApp (rest : List Tok) : Prop := ∀ t r, rest = t :: r → t.isApp = false
 
-theorem NoContE.noCont {g : Gram} {rest : List Tok} (h : NoContE g rest) : NoCont g rest :=
+theorem NoContW.noCont {g : Gram} {rest : List Tok} (h : NoContW g rest) : NoCont g rest :=
   fun t r e => let ⟨a, b, c, _⟩ := h t r e; ⟨a, b, c⟩
 
 theorem binOp_opTok (g : Gram) (o : Op) (ho : 1 ≤ o.lvl ∧ o.lvl ≤ g.N) : g.binOp? (g.opTok o) = some o := by
@@ -1170,12 +1271,24 @@ def Tok.isStop : Tok → Bool
   | _ => false
 
 theorem noContE_stop (g : Gram) (c : Tok) (x : List Tok) (h : c.isStop = true) : NoContE g (c :: x) := by
-  intro t r e
-  have : t = c := (List.cons.inj e).1.symm
-  subst this
-  cases t <;> simp [Tok.isStop] at h <;> simp [Gram.binOp?, Tok.isApp]
+  constructor
+  · intro t r e
+    have : t = c := (List.cons.inj e).1.symm
+    subst this
+    cases t <;> simp [Tok.isStop] at h <;> simp [Gram.binOp?, Tok.isApp]
+  · intro t r e
+    have : t = c := (List.cons.inj e).1.symm
+    subst this
+    cases t <;> simp [Tok.isStop] at h <;> rfl
 
-theorem noContE_nil (g : Gram) : NoContE g [] := fun _ _ e => by cases e
+theorem noContE_nil (g : Gram) : NoContE g [] := by
+  constructor <;> (intro t r e; cases e)
+
+theorem noContW_bar (g : Gram) (x : List Tok) : NoContW g (.bar :: x) := by
+  intro t r e
+  have : t = .bar := (List.cons.inj e).1.symm
+  subst this
+  simp [Gram.binOp?, Tok.isApp]
 
 theorem isStart_ne (t : Tok) (h : t.isStart = true) : t ≠ .rp ∧ t ≠ .rb ∧ t ≠ .rc ∧ t ≠ .colon := by
   cases t <;> simp [Tok.isStart] at h <;> simp
@@ -1280,19 +1393,70 @@ def NoSwz (rest : List Tok) : Prop := ∀ t r, rest = t :: r → t ≠ .swz
 def StopHead (rest : List Tok) : Prop := ∃ c x, rest = c :: x ∧ c.isStop = true
 
 theorem noContE_colon (g : Gram) (x : List Tok) : NoContE g (.colon :: x) := by
-  intro t r e
-  have : t = .colon := (List.cons.inj e).1.symm
-  subst this
-  simp [Gram.binOp?, Tok.isApp]
+  constructor
+  · intro t r e
+    have : t = .colon := (List.cons.inj e).1.symm
+    subst this
+    simp [Gram.binOp?, Tok.isApp]
+  · intro t r e
+    have : t = .colon := (List.cons.inj e).1.symm
+    subst this
+    rfl
+
+/-- the chain after an operand: the condition of `chainOk` from its first operand on -/
+def chainOkR (g : Gram) : Rest Fac → Prop
+  | [] => True
+  | (_, f) :: ps => chainOk g f ps
+
+def lastOpenR : Rest Fac → Bool
+  | [] => false
+  | (_, f) :: ps => (lastOp f ps).open
+
+/-- an expression is read back before anything that does not continue it; when it ends with a table, what follows
+    must moreover not start an operand (it would be read as another row) -/
+def EClaim (g : Gram) (n : Nat) : Prop :=
+  ∀ e, costE e ≤ n → okE g e → ∀ rest, NoContW g rest → (e.lastOpen = true → NoStart rest) →
+    pEx g n (rEx g e ++ rest) = some (e, rest)
+
+theorem EClaim.strong {g : Gram} {n : Nat} (h : EClaim g n) :
+    ∀ e, costE e ≤ n → okE g e → ∀ rest, NoContE g rest → pEx g n (rEx g e ++ rest) = some (e, rest) :=
+  fun e hc hok rest hr => h e hc hok rest hr.1 (fun _ => hr.2)
+
+/-- what follows an operand inside a flat formula is acceptable after a table -/
+theorem follow_open (g : Gram) (f : Fac) (ps : Rest Fac) (rest : List Tok) (hch : chainOk g f ps)
+    (hlast : (lastOp f ps).open = true → NoStart rest) : f.open = true → NoStart (rRest g ps ++ rest) := by
+  intro ho
+  cases ps with
+  | nil => simpa [rRest, lastOp] using hlast ho
+  | cons p ps =>
+    obtain ⟨o, f'⟩ := p
+    simp only [chainOk] at hch
+    have hne := hch.1 ho
+    intro t r e
+    simp only [rRest, List.cons_append] at e
+    have : t = g.opTok o := (List.cons.inj e).1.symm
+    subst this
+    simp [Gram.opTok, hne, Tok.isStart]
+
+theorem chainOkR_of (g : Gram) (f : Fac) (ps : Rest Fac) (h : chainOk g f ps) : chainOkR g ps := by
+  cases ps with
+  | nil => trivial
+  | cons p ps => obtain ⟨o, f'⟩ := p; exact h.2
+
+theorem lastOpenR_of (f : Fac) (ps : Rest Fac) (h : lastOpenR ps = true) : (lastOp f ps).open = true := by
+  cases ps with
+  | nil => simp [lastOpenR] at h
+  | cons p ps => obtain ⟨o, f'⟩ := p; simpa [lastOpenR, lastOp] using h
 
 /-- the eight claims for fuel `n` -/
 def RT (g : Gram) (n : Nat) : Prop :=
   (∀ f, costF f ≤ n → okF g f → ∀ rest, (∀ t r, rest = t :: r → t ≠ .quote ∧ t.isApp = false) →
-      pFac g n (rFac g f ++ rest) = some (f, rest)) ∧
-  (∀ ps, costR ps + 1 ≤ n → OpsIn g.N ps → (∀ p ∈ ps, okF g p.2) → ∀ rest, NoCont g rest →
-      pChain g n (rRest g ps ++ rest) = some (ps, rest)) ∧
-  (∀ t, costT t + 2 ≤ n → okT g t → ∀ rest, NoCont g rest → pForm g n (rTrm g t ++ rest) = some (t, rest)) ∧
-  (∀ e, costE e ≤ n → okE g e → ∀ rest, NoContE g rest → pEx g n (rEx g e ++ rest) = some (e, rest)) ∧
+      (f.open = true → NoStart rest) → pFac g n (rFac g f ++ rest) = some (f, rest)) ∧
+  (∀ ps, costR ps + 1 ≤ n → OpsIn g.N ps → (∀ p ∈ ps, okF g p.2) → chainOkR g ps → ∀ rest, NoCont g rest →
+      (lastOpenR ps = true → NoStart rest) → pChain g n (rRest g ps ++ rest) = some (ps, rest)) ∧
+  (∀ t, costT t + 2 ≤ n → okT g t → ∀ rest, NoCont g rest → ((lastOp t.first t.tail).open = true → NoStart rest) →
+      pForm g n (rTrm g t ++ rest) = some (t, rest)) ∧
+  EClaim g n ∧
   (∀ s, costSub s ≤ n → okSub g s → ∀ rest, NoContE g rest → pSub g n (rSub g s ++ rest) = some (s, rest)) ∧
   (∀ a, costArg a ≤ n → okArg g a → ∀ rest, StopHead rest → pArg g n (rArg g a ++ rest) = some (a, rest)) ∧
   (∀ a, costEnt a ≤ n → okEnt g a → ∀ rest, StopHead rest → pEnt g n (rEnt g a ++ rest) = some (a, rest)) ∧
@@ -1397,6 +1561,20 @@ theorem entM_cases (m : Mapping Fac) :
   split
   · next x v => exact Or.inl ⟨x, v, rfl, rfl⟩
   · next k v hnb => exact Or.inr ⟨k, v, rfl, rfl, fun x hx => hnb x hx⟩
+
+/-- the condition on canonical maps, spelled out: some key is not a bare name -/
+theorem allBind_entM_none : ∀ ms : List (Mapping Fac),
+    (∃ m ∈ ms, ∀ x v, m ≠ .mk (.form (.leaf (.var x))) v) → allBind (ms.map entM) = none
+  | [], h => by obtain ⟨m, hm, _⟩ := h; cases hm
+  | m :: ms, h => by
+    simp only [List.map_cons]
+    rcases entM_cases m with ⟨x, v, hm, he⟩ | ⟨k, v, hm, he, _⟩
+    · rw [he]
+      obtain ⟨m', hm', hne⟩ := h
+      rcases List.mem_cons.mp hm' with h1 | h1
+      · subst h1; exact absurd hm (hne x v)
+      · simp only [allBind, allBind_entM_none ms ⟨m', h1, hne⟩]
+    · rw [he]; simp [allBind]
 
 theorem allKeyed_entM : ∀ ms : List (Mapping Fac), allKeyed (ms.map entM) = some ms
   | [] => rfl
@@ -1504,20 +1682,111 @@ theorem sels_complete (g : Gram) (n : Nat)
   have hl := rCat_length_ge (rSel g) sels (fun s _ => by obtain ⟨t, r, e, _⟩ := rSel_head g s; rw [e]; simp)
   simp only [List.length_append]; omega
 
+/-! table literals -/
+
+theorem pFac_nonstart (g : Gram) (n : Nat) (ts : List Tok) (h : NoStart ts) : pFac g n ts = none := by
+  cases n with
+  | zero => simp [pFac]
+  | succ n =>
+    cases ts with
+    | nil => simp [pFac]
+    | cons t r =>
+      have := h t r rfl
+      cases t <;> simp [Tok.isStart] at this <;> simp [pFac]
+
+theorem pEx_nonstart (g : Gram) (n : Nat) (ts : List Tok) (h : NoStart ts) : pEx g n ts = none := by
+  cases n with
+  | zero => simp [pEx]
+  | succ n =>
+    have : pForm g n ts = none := by
+      cases n with
+      | zero => simp [pForm]
+      | succ n => simp [pForm, pFac_nonstart g n ts h]
+    simp [pEx, this]
+
+theorem sepBy_none {α : Type} (p : List Tok → Option (α × List Tok)) (sep : Tok) (k : Nat) (ts : List Tok) (h : p ts = none) :
+    sepBy p sep k ts = none := by
+  cases k <;> simp [sepBy, h]
+
+theorem rowOf_nonstart (g : Gram) (n : Nat) (ts : List Tok) (h : NoStart ts) : rowOf (pEx g n) ts = none := by
+  simp [rowOf, sepBy_none _ _ _ _ (pEx_nonstart g n ts h)]
+
+/-- a row of a table is read back: its cells do not end with a table, so the bar after the last is the end of the row -/
+theorem trow_complete (g : Gram) (n : Nat) (ihE : EClaim g n)
+    (row : List Exp) (hne : row ≠ []) (hcost : costEs row ≤ n) (hok : okEs g row) (hcl : ∀ e ∈ row, e.lastOpen = false) (x : List Tok) :
+    rowOf (pEx g n) ((rRow g row ++ [.bar]) ++ x) = some (row, x) := by
+  have hs : sepBy (pEx g n) .sp (rRow g row ++ .bar :: x).length (rRow g row ++ .bar :: x) = some (row, .bar :: x) := by
+    rw [rRow_eq]
+    apply sepBy_complete (pEx g n) (rEx g) .sp (.bar :: x)
+    · intro t r' e; cases e; decide
+    · exact hne
+    · intro a ha tail htail
+      apply ihE a (Nat.le_trans (costEs_mem row a ha) hcost) (okEs_mem g row hok a ha)
+      · rcases htail with h | ⟨y, h⟩
+        · subst h; exact noContW_bar g _
+        · subst h; exact (noContE_stop g _ _ rfl).1
+      · intro ho; rw [hcl a ha] at ho; cases ho
+    · have := rSep_length_ge (rEx g) .sp row (fun a _ => by obtain ⟨t, r', e, _⟩ := rEx_head g a; rw [e]; simp)
+      simp only [List.length_append]; omega
+  simp only [List.append_assoc, List.cons_append, List.nil_append, rowOf, hs]
+
+theorem pFac_bar (g : Gram) (n : Nat) (r : List Tok) :
+    pFac g (n + 1) (.bar :: r) = (match sepBy pField .sp r.length r with
+       | some (hdr, .bar :: r1) =>
+         (match many (rowOf (pEx g n)) r1.length r1 with
+          | ([], _) => none
+          | (rows, r2) => some (post (.tbl hdr rows) r2))
+       | _ => none) := by
+  simp only [pFac] <;> rfl
+
+theorem tbl_complete (g : Gram) (n : Nat) (ihE : EClaim g n) (hdr : List (Nat × Nat)) (rows : List (List Exp))
+    (hc : costRows rows ≤ n) (hok : hdr ≠ [] ∧ rows ≠ [] ∧ okTRows g rows) (rest : List Tok) (hns : NoStart rest) :
+    pFac g (n + 1) (rFac g (.tbl hdr rows) ++ rest) = some (post (.tbl hdr rows) rest) := by
+  have hh : sepBy pField .sp (rSep (fun f : Nat × Nat => [Tok.id f.1, Tok.kind f.2]) .sp hdr ++ .bar :: (rTRows g rows ++ rest)).length
+      (rSep (fun f : Nat × Nat => [Tok.id f.1, Tok.kind f.2]) .sp hdr ++ .bar :: (rTRows g rows ++ rest)) = some (hdr, .bar :: (rTRows g rows ++ rest)) := by
+    apply sepBy_complete pField (fun f : Nat × Nat => [Tok.id f.1, Tok.kind f.2]) .sp (.bar :: (rTRows g rows ++ rest))
+    · intro t r' e; cases e; decide
+    · exact hok.1
+    · intro f _ tail _; rfl
+    · have := rSep_length_ge (fun f : Nat × Nat => [Tok.id f.1, Tok.kind f.2]) .sp hdr (fun _ _ => by simp)
+      simp only [List.length_append]; omega
+  have hm : many (rowOf (pEx g n)) (rTRows g rows ++ rest).length (rTRows g rows ++ rest) = (rows, rest) := by
+    rw [rTRows_eq]
+    have := many_complete (rowOf (pEx g n)) (fun row => rRow g row ++ [Tok.bar]) rest (fun _ => True) trivial
+      (rowOf_nonstart g n rest hns) rows
+      (by
+        intro row hrow tail _
+        obtain ⟨hne, hokr, hcl⟩ := okTRows_mem g rows hok.2.2 row hrow
+        have hcr := costRows_mem rows row hrow
+        exact ⟨trow_complete g n ihE row hne (by omega) hokr hcl tail, trivial⟩)
+    apply this.2
+    have hl := rCat_length_ge (fun row => rRow g row ++ [Tok.bar]) rows (fun _ _ => by simp)
+    simp only [List.length_append]; omega
+  simp only [rFac, List.cons_append, List.append_assoc]
+  rw [pFac_bar, hh]
+  simp only [hm]
+  cases rows with
+  | nil => exact absurd rfl hok.2.1
+  | cons r rs => rfl
+
 /-- the operands that are not prefixed or transposed: what `factor` reads before the optional
     transpose mark -/
 theorem rt_base (g : Gram) (n : Nat)
-    (ihT : ∀ t, costT t + 2 ≤ n → okT g t → ∀ rest, NoCont g rest → pForm g n (rTrm g t ++ rest) = some (t, rest))
+    (ihE0 : EClaim g n)
     (ihE : ∀ e, costE e ≤ n → okE g e → ∀ rest, NoContE g rest → pEx g n (rEx g e ++ rest) = some (e, rest))
     (ihS : ∀ s, costSub s ≤ n → okSub g s → ∀ rest, NoContE g rest → pSub g n (rSub g s ++ rest) = some (s, rest))
     (ihA : ∀ a, costArg a ≤ n → okArg g a → ∀ rest, StopHead rest → pArg g n (rArg g a ++ rest) = some (a, rest))
     (ihN : ∀ a, costEnt a ≤ n → okEnt g a → ∀ rest, StopHead rest → pEnt g n (rEnt g a ++ rest) = some (a, rest))
     (ihL : ∀ s, costSel s ≤ n → okSel g s → ∀ rest, NoSwz rest → pSel g n (rSel g s ++ rest) = some (s, rest)) :
-    ∀ f, f.isBase = true → costF f ≤ n + 1 → okF g f → ∀ rest, NoApp rest →
+    ∀ f, f.isBase = true → costF f ≤ n + 1 → okF g f → ∀ rest, NoApp rest → (f.open = true → NoStart rest) →
       pFac g (n + 1) (rFac g f ++ rest) = some (post f rest) := by
-  intro f hb hc hok rest hna
+  intro f hb hc hok rest hna ho
   cases f with
   | lit a => simp [rFac, pFac]
+  | tbl hdr rows =>
+    simp only [costF] at hc
+    simp only [okF] at hok
+    exact tbl_complete g n ihE0 hdr rows (by omega) hok rest (ho rfl)
   | var x =>
     have hnlp : ∀ r', rest ≠ .lp :: r' := by
       intro r' e; have := hna _ _ e; simp [Tok.isApp] at this
@@ -1683,31 +1952,32 @@ theorem noCont_dots (g : Gram) (i : Bool) (r : List Tok) : NoCont g (.dots i :: 
   simp [Gram.binOp?, Tok.isApp]
 
 theorem rt_step (g : Gram) (n : Nat) (ih : RT g n) : RT g (n + 1) := by
-  obtain ⟨ihF, ihC, ihT, ihE, ihS, ihA, ihN, ihL⟩ := ih
-  have hbase := rt_base g n ihT ihE ihS ihA ihN ihL
+  obtain ⟨ihF, ihC, ihT, ihE0, ihS, ihA, ihN, ihL⟩ := ih
+  have ihE := ihE0.strong
+  have hbase := rt_base g n ihE0 ihE ihS ihA ihN ihL
   refine ⟨?_, ?_, ?_, ?_, ?_, ?_, ?_, ?_⟩
   · -- factors
-    intro f hc hok rest hq
+    intro f hc hok rest hq ho
     have hnq : ∀ t r, rest = t :: r → t ≠ .quote := fun t r e => (hq t r e).1
     by_cases hb : f.isBase = true
-    · rw [hbase f hb hc hok rest (noApp_of rest hq), post_noquote _ _ hnq]
+    · rw [hbase f hb hc hok rest (noApp_of rest hq) ho, post_noquote _ _ hnq]
     · cases f with
       | neg f =>
         simp only [costF] at hc
         simp only [okF] at hok
-        have := ihF f (by omega) hok rest hq
+        have := ihF f (by omega) hok rest hq (fun h => ho (by simpa [Fac.open] using h))
         simp only [rFac, List.cons_append, pFac, this]
         rw [post_noquote _ _ hnq]
       | not f =>
         simp only [costF] at hc
         simp only [okF] at hok
-        have := ihF f (by omega) hok rest hq
+        have := ihF f (by omega) hok rest hq (fun h => ho (by simpa [Fac.open] using h))
         simp only [rFac, List.cons_append, pFac, this]
         rw [post_noquote _ _ hnq]
       | tr f =>
         simp only [costF] at hc
         simp only [okF] at hok
-        have := hbase f hok.1 (by omega) hok.2 (.quote :: rest) (by intro t r e; cases e; rfl)
+        have := hbase f hok.1 (by omega) hok.2 (.quote :: rest) (by intro t r e; cases e; rfl) (by intro _ t r e; cases e; rfl)
         simp only [rFac, List.append_assoc, List.cons_append, List.nil_append, this, post]
       | lit _ => simp [Fac.isBase] at hb
       | var _ => simp [Fac.isBase] at hb
@@ -1717,10 +1987,11 @@ theorem rt_step (g : Gram) (n : Nat) (ih : RT g n) : RT g (n + 1) := by
       | set _ => simp [Fac.isBase] at hb
       | recd _ => simp [Fac.isBase] at hb
       | map _ => simp [Fac.isBase] at hb
+      | tbl _ _ => simp [Fac.isBase] at hb
       | slice _ _ => simp [Fac.isBase] at hb
       | paren _ => simp [Fac.isBase] at hb
   · -- chains
-    intro ps hc hops hok rest hnc
+    intro ps hc hops hok hch rest hnc hlast
     cases ps with
     | nil =>
       simp only [rRest, List.nil_append]
@@ -1732,44 +2003,52 @@ theorem rt_step (g : Gram) (n : Nat) (ih : RT g n) : RT g (n + 1) := by
     | cons x ps =>
       obtain ⟨o, f⟩ := x
       simp only [costR] at hc
+      simp only [chainOkR] at hch
+      simp only [lastOpenR] at hlast
       have hf : okF g f := hok (o, f) List.mem_cons_self
       have hps : ∀ p ∈ ps, okF g p.2 := fun p hp => hok p (List.mem_cons_of_mem _ hp)
-      have h1 := ihF f (by omega) hf (rRest g ps ++ rest) (head_rRest g ps rest hnc)
-      have h2 := ihC ps (by omega) (fun x hx => hops x (List.mem_cons_of_mem _ hx)) hps rest hnc
+      have h1 := ihF f (by omega) hf (rRest g ps ++ rest) (head_rRest g ps rest hnc) (follow_open g f ps rest hch hlast)
+      have h2 := ihC ps (by omega) (fun x hx => hops x (List.mem_cons_of_mem _ hx)) hps (chainOkR_of g f ps hch) rest hnc
+        (fun h => hlast (lastOpenR_of f ps h))
       simp only [rRest, List.cons_append, List.append_assoc, pChain, binOp_opTok g o (hops (o, f) List.mem_cons_self), h1, h2]
   · -- formulas
-    intro t hc hok rest hnc
+    intro t hc hok rest hnc hlast
     obtain ⟨hwg, hops, hl⟩ := hok
     have hparts := okL_parts g t hl
+    have hch := okL_chain g t hl
     have hcost := cost_first_tail t
     have h1 := ihF t.first (by omega) hparts.1 (rRest g t.tail ++ rest) (head_rRest g t.tail rest hnc)
-    have h2 := ihC t.tail (by omega) hops hparts.2 rest hnc
+      (follow_open g t.first t.tail rest hch hlast)
+    have h2 := ihC t.tail (by omega) hops hparts.2 (chainOkR_of g t.first t.tail hch) rest hnc
+      (fun h => hlast (lastOpenR_of t.first t.tail h))
     have h3 : parseFormula g.N t.first t.tail = (t, []) := by
       have ha := grouping_unique g.N t.first t.tail hops t hwg rfl rfl
       have hb := (parse_consumes_all g.N t.first t.tail hops).1
       exact Prod.ext ha hb
     simp only [rTrm_flat, List.append_assoc, pForm, h1, h2, h3, List.isEmpty_nil, if_true]
   · -- expressions
-    intro e hc hok rest hnc
+    intro e hc hok rest hnc hlast
     have hd : ∀ i r, rest ≠ .dots i :: r := fun i r e => (hnc _ _ e).2.2.2 i rfl
+    have hdots : ∀ (P : Prop) i r, P → NoStart (.dots i :: r) := by
+      intro P i r _ t r' e; cases e; rfl
     cases e with
     | form t =>
       simp only [costE] at hc
       simp only [okE] at hok
-      exact pEx_form_of g n _ t rest (ihT t (by omega) hok rest hnc.noCont) hd
+      exact pEx_form_of g n _ t rest (ihT t (by omega) hok rest hnc.noCont hlast) hd
     | range a i b =>
       simp only [costE] at hc
       simp only [okE] at hok
-      have h1 := ihT a (by omega) hok.1 (.dots i :: (rTrm g b ++ rest)) (noCont_dots g _ _)
-      have h2 := ihT b (by omega) hok.2 rest hnc.noCont
+      have h1 := ihT a (by omega) hok.1 (.dots i :: (rTrm g b ++ rest)) (noCont_dots g _ _) (hdots _ _ _)
+      have h2 := ihT b (by omega) hok.2 rest hnc.noCont hlast
       have := pEx_range_of g n (rTrm g a ++ .dots i :: (rTrm g b ++ rest)) a b i _ rest h1 h2 hd
       simpa [rEx] using this
     | range3 a i1 s i2 b =>
       simp only [costE] at hc
       simp only [okE] at hok
-      have h1 := ihT a (by omega) hok.1 (.dots i1 :: (rTrm g s ++ .dots i2 :: (rTrm g b ++ rest))) (noCont_dots g _ _)
-      have h2 := ihT s (by omega) hok.2.1 (.dots i2 :: (rTrm g b ++ rest)) (noCont_dots g _ _)
-      have h3 := ihT b (by omega) hok.2.2 rest hnc.noCont
+      have h1 := ihT a (by omega) hok.1 (.dots i1 :: (rTrm g s ++ .dots i2 :: (rTrm g b ++ rest))) (noCont_dots g _ _) (hdots _ _ _)
+      have h2 := ihT s (by omega) hok.2.1 (.dots i2 :: (rTrm g b ++ rest)) (noCont_dots g _ _) (hdots _ _ _)
+      have h3 := ihT b (by omega) hok.2.2 rest hnc.noCont hlast
       simp only [rEx, List.append_assoc, List.cons_append, pEx, h1, h2, h3]
   · -- subscripts
     intro s hc hok rest hnc
@@ -1917,12 +2196,12 @@ theorem pStmt_complete (g : Gram) (n : Nat) (s : Stmt) (hc : costStmt s ≤ n) (
   | define mu x k e =>
     simp only [costStmt] at hc
     simp only [okStmt] at hok
-    have he := (rt_all g n).2.2.2.1 e hc hok rest hnc
+    have he := EClaim.strong (rt_all g n).2.2.2.1 e hc hok rest hnc
     cases mu <;> cases k <;> simp [rStmt, pStmt, pDefine, he]
   | assign x sels e =>
     simp only [costStmt] at hc
     simp only [okStmt] at hok
-    have he := (rt_all g n).2.2.2.1 e (by omega) hok.2 rest hnc
+    have he := EClaim.strong (rt_all g n).2.2.2.1 e (by omega) hok.2 rest hnc
     have ht := pTarget_complete g n x sels (by omega) hok.1 (.assign :: (rEx g e ++ rest)) (by intro t r h; cases h; rfl)
     have hd := rTarget_noDefine g n x sels .assign (rEx g e ++ rest) (by intro k h; cases h) (by intro h; cases h)
     have hnt : ∀ r, rTarget g x sels ++ .assign :: (rEx g e ++ rest) ≠ .tilde :: r := by
@@ -1935,7 +2214,7 @@ theorem pStmt_complete (g : Gram) (n : Nat) (s : Stmt) (hc : costStmt s ≤ n) (
   | opAssign x sels k e =>
     simp only [costStmt] at hc
     simp only [okStmt] at hok
-    have he := (rt_all g n).2.2.2.1 e (by omega) hok.2 rest hnc
+    have he := EClaim.strong (rt_all g n).2.2.2.1 e (by omega) hok.2 rest hnc
     have ht := pTarget_complete g n x sels (by omega) hok.1 (.opAssign k :: (rEx g e ++ rest)) (by intro t r h; cases h; rfl)
     have hd := rTarget_noDefine g n x sels (.opAssign k) (rEx g e ++ rest) (by intro k h; cases h) (by intro h; cases h)
     have hnt : ∀ r, rTarget g x sels ++ .opAssign k :: (rEx g e ++ rest) ≠ .tilde :: r := by
